@@ -659,7 +659,17 @@ def main(args=None):
                 if v.startswith("verbose") and v != "verbose_all":
                     setattr(args, v, True)
 
-        sys.setrecursionlimit(args.recursion_limit)
+        # sys.setrecursionlimit takes a positive C int and refuses a limit below the current depth
+        if not 1 <= args.recursion_limit <= 2**31 - 1:
+            parser.error(
+                "Invalid argument to --recursion-limit = {} (must be between 1 and 2147483647)".format(
+                    args.recursion_limit
+                )
+            )
+        try:
+            sys.setrecursionlimit(args.recursion_limit)
+        except RecursionError as e:
+            parser.error("Invalid argument to --recursion-limit = {} ({})".format(args.recursion_limit, e))
 
         # Use Imx93 Architecture by default(args.config is None)
         if args.config is None and args.system_config == args.memory_mode == ArchitectureFeatures.DEFAULT_CONFIG:
